@@ -43,6 +43,7 @@ ASSUMPTIONS = [
 
 CORRUPT_CLASSES = ["magic", "command", "length-up", "length-down", "checksum", "payload"]
 GATES = {
+    "object-edit-histories": ["reuse:header-edited-then-serialized"],
     "primitive-monitors-ran": ["encode_varint", "read_varint", "encode_varstr", "read_varstr", "int_to_little_endian", "little_endian_to_int",
                                "int_to_big_endian", "big_endian_to_int", "int_to_byte", "byte_to_int"],
     "envelope-monitors-ran": ["NetworkEnvelope.serialize", "NetworkEnvelope.parse"],
@@ -887,6 +888,18 @@ def wl_messages(ctx, rng, idx, n):
             if s[0] == "ok" and s[1] != raw:
                 _viol(ctx, "block-header-roundtrip", "serialize(parse_header(raw)) != raw", {"op": "block-header-parse", "raw": raw})
             ctx.monitor("block-header-roundtrip")
+            # edit history on the parsed object: every later serialize() must encode the fields as they are now
+            # (the Block.serialize contract compares with the reference layout of the current fields)
+            blk = o[1]
+            field = ["nonce", "timestamp", "bits", "version", "prev_block", "merkle_root"][r % 6]
+            if field in ("nonce", "bits"):
+                setattr(blk, field, rng.getrandbits(32).to_bytes(4, "big"))
+            elif field in ("timestamp", "version"):
+                setattr(blk, field, (getattr(blk, field) + 1) % 2**32)
+            else:
+                setattr(blk, field, rng.getrandbits(256).to_bytes(32, "big"))
+            outcome(blk.serialize)
+            ctx.count("reuse:header-edited-then-serialized")
     # BIP157 requests
     for r in range(reps):
         ft, sh, stop = edge(rng, 1), edge(rng, 4), h32(rng)
